@@ -12,7 +12,14 @@ Open Scope N_scope.
 Inductive case :=
 | mk (st : pstate) (req : bytes) (oracle : list (bytes * option bytes)) (channel data : bytes)
      (handled : bool) (obs : list effect)
-| mkA (st : pstate) (req : bytes) (target : bytes) (payload : bytes) (obs : list awrite).
+| mkA (st : pstate) (req : bytes) (target : bytes) (payload : bytes) (obs : list awrite)
+| mkH (st : pstate) (req : bytes) (oracle : list (bytes * option bytes)) (channel : bytes)
+      (datas : list bytes) (obs : list (bool * list effect))
+    (* 2..3 requests through the SAME responder; the byte slices handed to the fake Providers are kept
+       uncopied and read only after the last request *)
+| mkA2 (st : pstate) (req : bytes) (target : bytes) (payloadA payloadB : bytes) (obs : list awrite).
+    (* two Forward requests back to back through the real adapter while every player connection is
+       blocked; the connections are released afterwards and serialise what they were given *)
 
 Definition bools : list bool := [false; true].
 (* the trees the judge recognises: findings 1 and 6 are repaired in the code (a recurrence is a violation),
@@ -57,28 +64,53 @@ Definition impl_adapter (F : flags) (st : pstate) (req : player) (target payload
   | _ => []
   end.
 
+Definition judge_dispatch (st : pstate) (req : player) (oracle : list (bytes * option bytes))
+           (ch data : bytes) (o : bool * list effect) : verdict :=
+  if beq_result o (spec_bungee st req oracle ch data) then VOk
+  else match find (fun F => beq_result o (model F st req oracle ch data)) all_flags with
+       | None => VViolation
+       | Some F =>
+         match read_utf data with
+         | None => VViolation
+         | Some (name, a) =>
+           let s := parse_sub name in
+           (* the recorded defect that explains the difference: the highest-numbered unrepaired one in whose trigger class the request lies *)
+           if negb (f4 F) && trigger4 oracle s a then VKnown 4
+           else if negb (f3 F) && trigger3 st s a then VKnown 3
+           else if negb (f2 F) && trigger2 st s a then VKnown 2
+           else VViolation
+         end
+       end.
+
+Definition worse (a b : verdict) : verdict :=
+  match a, b with
+  | VViolation, _ | _, VViolation => VViolation
+  | VMismatch, _ | _, VMismatch => VMismatch
+  | VKnown k, _ => VKnown k
+  | VOk, x => x
+  end.
+
+Fixpoint judge_history (st : pstate) (req : player) (oracle : list (bytes * option bytes)) (ch : bytes)
+         (ds : list bytes) (obs : list (bool * list effect)) : verdict :=
+  match ds, obs with
+  | [], [] => VOk
+  | d :: ds', o :: obs' => worse (judge_dispatch st req oracle ch d o) (judge_history st req oracle ch ds' obs')
+  | _, _ => VViolation
+  end.
+
+Definition has_data (d : bytes) (w : awrite) : bool := beq_bytes (w_data w) d.
+
 Definition judge (c : case) : verdict :=
   match c with
   | mk st reqn oracle ch data h obs =>
     match find_player (players st) reqn with
     | None => VMismatch
-    | Some req =>
-      let o := (h, obs) in
-      if beq_result o (spec_bungee st req oracle ch data) then VOk
-      else match find (fun F => beq_result o (model F st req oracle ch data)) all_flags with
-           | None => VViolation
-           | Some F =>
-             match read_utf data with
-             | None => VViolation
-             | Some (name, a) =>
-               let s := parse_sub name in
-               (* the recorded defect that explains the difference: the highest-numbered unrepaired one in whose trigger class the request lies *)
-               if negb (f4 F) && trigger4 oracle s a then VKnown 4
-               else if negb (f3 F) && trigger3 st s a then VKnown 3
-               else if negb (f2 F) && trigger2 st s a then VKnown 2
-               else VViolation
-             end
-           end
+    | Some req => judge_dispatch st req oracle ch data (h, obs)
+    end
+  | mkH st reqn oracle ch ds obs =>
+    match find_player (players st) reqn with
+    | None => VMismatch
+    | Some req => judge_history st req oracle ch ds obs
     end
   | mkA st reqn target payload obs =>
     match find_player (players st) reqn with
@@ -87,5 +119,22 @@ Definition judge (c : case) : verdict :=
       if holds_adapter st req target payload obs then VOk
       else if same_writes obs (impl_adapter current st req target payload)
       then VKnown 5 else VViolation
+    end
+  | mkA2 st reqn target pa pb obs =>
+    match find_player (players st) reqn with
+    | None => VMismatch
+    | Some req =>
+      match prepare_forward all_fixed pa, prepare_forward all_fixed pb with
+      | FSome fa, FSome fb =>
+        (* each addressed server gets A once and B once, and nothing else is written *)
+        if holds_adapter st req target pa (filter (has_data fa) obs) &&
+           holds_adapter st req target pb (filter (has_data fb) obs) &&
+           (N.of_nat (length (filter (has_data fa) obs)) + N.of_nat (length (filter (has_data fb) obs)) =? N.of_nat (length obs)) &&
+           negb (beq_bytes fa fb)
+        then VOk
+        else if same_writes obs (impl_adapter current st req target pa ++ impl_adapter current st req target pb)
+        then VKnown 5 else VViolation
+      | _, _ => VMismatch
+      end
     end
   end.
